@@ -115,6 +115,41 @@ CLAIMED = {
         'Topology and equipment documents: per-converter + generic-layer theorems only; their composition, the loaders, '
         'libyang acceptance and the API section are covered by the oracle and correspondence only.',
         'DESIGN.md §7 C18'),
+    'C13': (
+        'Coq proof over an executable Q model (update_snr from raw figures, penalty normalisation/interpolation with '
+        'infinity outside the table, fixed-mode verdict, mode loop as first decisive pair in a proved exploration order, '
+        'stateful loop) + correspondence of update_snr / calc_penalties / whole decisions against figures of fresh '
+        'propagations + oracle on the implementation',
+        'History independence and once-each noise accounting of the receiver figures, verdict_fixed_spec, '
+        'penalty_outside_blocks, mode_loop_spec / exploration order / selected & converse / no-feasible-mode / no-baudrate, '
+        'independence of the loop from amplifier state; threshold-equal decisions are not judged (counted).',
+        'The line-with-state model used for the loop-state theorems is structural (no NLI, simplified ROADM) and tied to '
+        'gnpy by the oracle (in-loop vs fresh figures), not numerically. dB<->linear conversions are harness inputs.',
+        'DESIGN.md §7 C13'),
+    'C16': (
+        'Coq proof on a batch model with explicit element state (batch_indep, batch_perm, copy_needed_refuted) + proved '
+        'validator obs_ok applied to observed planning() runs (batch / each request alone / 3 permutations on one network; '
+        'network_to_json and deep element snapshot before = after)',
+        'For every batch, position, spectrum policy and state of the model the non-spectrum result of a request equals '
+        'the request alone and the network is unchanged; permutations permute results; the observed behaviour of gnpy is '
+        'judged by a validator proved equivalent to its specification plus a field-by-field comparison at 1e-9.',
+        'The theorem is structural; the assurance about gnpy comes from the validator/oracle runs (a sensitivity run '
+        'without deepcopy is reported in the evidence). Spectrum N/M and spectrum blocking reasons are excluded by the property.',
+        'DESIGN.md §7 C16'),
+    'C20': (
+        'Coq proof over an executable model of convert.py / service_sheet.py on parsed rows (symbolic uids + injective '
+        'rendering, chain decomposition of the connection list) + workbook-level correspondence (real .xlsx via openpyxl, '
+        'xlrd look-alikes, shipped fixtures; vm_compute) + oracle on the converted JSON, network_from_json + '
+        'designed_network, read_service_sheet',
+        'For every row list: accepted workbooks yield one ROADM+transceiver per ROADM site, fused/amplifier pairs per line '
+        'site, one fibre per direction per link with its side values (west defaulting to east), unique names, existing end '
+        'points, one predecessor/successor per line element, Eqpt settings on the amplifier facing the named neighbour; '
+        'every broken sanity rule gives a NetworkTopologyError naming the rule; service rows give the stated units, route '
+        'list, strictness and one synchronisation vector per disjoint-from entry.',
+        'Not modelled: header recognition and cell reading, per-degree impairment columns, region filter. Route-name '
+        'correction partially modelled. The real .xls parser is exercised by the shipped fixtures only (no xlwt). Open '
+        'finding: Eqpt row on a FUSED site.',
+        'DESIGN.md §7 C20'),
 }
 
 NOT_YET = {}
